@@ -13,6 +13,7 @@
           [nm=v] selector on its own path matches on
      (H2) no_null_path ps n : no !!null node on the existing part of the path (kyaml drops such writes) *)
 From KV Require Import Yaml.Fns Yaml.FnsSpec Yaml.FnsProofs Yaml.JsonRef Yaml.JsonRefProofs.
+From KV Require Import Yaml.FieldSpec Yaml.FieldSpecSpec Yaml.FieldSpecProofs Yaml.FieldSpecGenProofs.
 
 (* ---------- lookup is pure ---------- *)
 (* Looking a path up (no creation) never modifies the document, whatever the path and document. *)
@@ -214,3 +215,71 @@ Theorem C14_frame_without_side_condition_refuted :
     put (fun _ => false) ps name v n = Ok (n', Some tt) /\ lookup qs n = Ok None /\ lookup qs n' <> Ok None.
 Proof. exact frame_needs_side_condition. Qed.
 Print Assumptions C14_frame_without_side_condition_refuted.
+
+(* ==================== field-spec traversal (api/filters/fieldspec, fsslice) ==================== *)
+(* Yaml/FieldSpec.v: fs_filter = Filter.filter/handleMap/handleSequence, fs_apply = Filter.Filter (GVK test +
+   PathSplitter), fsslice_apply = fsslice.Filter.  Yaml/FieldSpecSpec.v: positions (get_at / upd_at /
+   apply_at), the reference interpretation [denotes] of a slash path, [fs_diverges]. *)
+
+(* The slash path visits exactly the nodes its reference interpretation denotes: without creation and for
+   plain segments, the filter succeeds with d' iff [denotes] is defined and applying SetValue at the denoted
+   positions, in document order, yields d'.  (For all SetValue functions, hence SetValue is invoked on
+   exactly those nodes; a scalar on the way makes both sides fail.) *)
+Theorem C14_fieldspec_denotes :
+  forall (create_kind : option kind) (create_tag : tag) (set_value : node -> res node) (path : list string),
+    forallb plain_seg path = true ->
+    forall obj obj' : node,
+      fs_filter create_kind create_tag set_value false path obj = Ok obj' <->
+      (exists qs : list jpath, denotes path obj = Ok qs /\ apply_at set_value qs obj = Ok obj').
+Proof. exact fs_filter_denotes. Qed.
+Print Assumptions C14_fieldspec_denotes.
+
+(* Frame: a position that leaves the field-spec path at some key keeps its value, whatever SetValue does,
+   with or without creation, "[]" hints and null promotion. *)
+Theorem C14_fieldspec_frame :
+  forall (create_kind : option kind) (create_tag : tag) (set_value : node -> res node) (create : bool)
+         (path : list string),
+    forallb seg_ok path = true ->
+    forall (obj obj' : node) (q : jpath),
+      fs_filter create_kind create_tag set_value create path obj = Ok obj' ->
+      fs_diverges path q = true -> get_at q obj' = get_at q obj.
+Proof. exact fs_filter_frame. Qed.
+Print Assumptions C14_fieldspec_frame.
+
+Theorem C14_fieldspec_apply_frame :
+  forall (create_kind : option kind) (create_tag : tag) (set_value : node -> res node) (fs : fieldspec)
+         (obj obj' : node) (q : jpath),
+    forallb seg_ok (fs_segments fs) = true ->
+    fs_apply create_kind create_tag set_value fs obj = Ok obj' ->
+    fs_diverges (fs_segments fs) q = true -> get_at q obj' = get_at q obj.
+Proof. exact fs_apply_frame. Qed.
+Print Assumptions C14_fieldspec_apply_frame.
+
+Theorem C14_fsslice_frame :
+  forall (create_kind : option kind) (create_tag : tag) (set_value : node -> res node) (l : list fieldspec)
+         (obj obj' : node) (q : jpath),
+    Forall (fun fs => forallb seg_ok (fs_segments fs) = true /\ fs_diverges (fs_segments fs) q = true) l ->
+    fsslice_apply create_kind create_tag set_value l obj = Ok obj' ->
+    get_at q obj' = get_at q obj.
+Proof. exact fsslice_apply_frame. Qed.
+Print Assumptions C14_fsslice_frame.
+
+(* ---------- obligations over the tables generated from /repo (Gen/FieldSpecs.v) ---------- *)
+(* every segment of every builtin field-spec path is a plain map key, possibly with a "[]" hint *)
+Theorem Gen_C14_fieldspec_segments_ok :
+  forallb (fun fs => forallb seg_ok (fs_segments fs)) gen_all_fs = true.
+Proof. exact gen_fs_segments_ok. Qed.
+Print Assumptions Gen_C14_fieldspec_segments_ok.
+
+(* every builtin field spec that does not create has plain segments only *)
+Theorem Gen_C14_fieldspec_nocreate_plain :
+  forallb (fun fs => fs_create fs || forallb plain_seg (fs_segments fs)) gen_all_fs = true.
+Proof. exact gen_fs_nocreate_plain. Qed.
+Print Assumptions Gen_C14_fieldspec_nocreate_plain.
+
+Theorem Gen_C14_fieldspec_tables_nonempty :
+  (10 <=? List.length gen_all_fs)%nat = true /\
+  (1 <=? List.length (filter (fun fs => negb (fs_create fs)) gen_all_fs))%nat = true /\
+  (1 <=? List.length (filter (fun fs => existsb seg_hint (fs_segments fs)) gen_all_fs))%nat = true.
+Proof. exact gen_fs_nonempty. Qed.
+Print Assumptions Gen_C14_fieldspec_tables_nonempty.
